@@ -1076,7 +1076,27 @@ struct World {
             if (!expect_no_throw(rcode, A.stack))
                 return;
             int od = d.layers[0].out_dims;
-            obs.bytes(bits, 8 * (size_t)od);
+            {
+                // Values that went through arithmetic: which NaN payload survives an
+                // operation with two NaN operands depends on operand order, which the
+                // compiler may legally choose per build. All NaNs are one observation.
+                uint64_t canon[8];
+                Scal os = d.layers[0].out_scal;
+                for (int j = 0; j < od; ++j) {
+                    bool nan = os == SC_F32 ? std::isnan(bits_f32(bits[j])) : std::isnan(bits_f64(bits[j]));
+                    canon[j] = nan ? 0x7ff8000000000000ull : bits[j];
+                }
+                obs.bytes(canon, 8 * (size_t)od);
+                if (plan.property == "C15" && getenv("SIM_VERBOSE")) {
+                    std::printf("LOOKUP x=");
+                    for (double v : x)
+                        std::printf("%a ", v);
+                    std::printf("->");
+                    for (int j = 0; j < od; ++j)
+                        std::printf(" %016llx", (unsigned long long)bits[j]);
+                    std::printf("\n");
+                }
+            }
             if (d.view_writable) {
                 // the view maps straight onto the lattice: the model knows the answer
                 size_t lin = 0;
